@@ -12,6 +12,7 @@ from .. import session as S
 from .. import sched as E
 from . import queue_disk as D
 from . import c15
+from . import status_common as ST
 
 ID = 'C12'
 LEVEL = 'model_checking'
@@ -20,6 +21,7 @@ RULE = ('every interleaving of the keyboard thread with the generation loop at t
         'resumed inside a Markov level; every execution runs to completion; oracle: without a write of should_exit the stream is the complete uninterrupted stream; '
         'executions are grouped by the quit moment (main-loop position at the write): within a group stdout and saved files are identical, the cut is a pre-terminal boundary or between '
         'two Markov guesses, and resuming from the saved files completes the stream; states = scheduling points visited, transitions = scheduler decisions; '
+        'clock layer (sequential): the same keypress()/StatusReport body after every guess position under every combination of 0/1/2 days, hours, minutes, seconds of elapsed time; '
         'non-trivial = execution in which the keyboard thread ran between two main-loop points (not only before the first / after the last)')
 ASSUMPTIONS = ['between two scheduling points neither thread touches state the other writes; accesses inside one bytecode are atomic under the GIL',
                'input() behaviour under each stdin condition is modelled by the script alphabet (tty/open pipe = BLOCK, /dev/null or pipe at EOF = EOF, closed = ERR); a handful of real-subprocess confirmations are in the thorough tier',
@@ -43,13 +45,13 @@ def scripts(tier):
 
 
 def shards(tier):
-    return [(scen, i) for scen in ('fresh', 'resumed') for i in range(len(scripts(tier)))] + [('subprocess', 0)]
+    return [(scen, i) for scen in ('fresh', 'resumed') for i in range(len(scripts(tier)))] + [('subprocess', 0)] + ST.shards()
 
 
 def bounds(tier):
     return {'preemption_bound_completed': 2 if tier == 'quick' else '3 (2 for scripts with a help request)', 'scripts': scripts(tier),
             'scenarios': ['fresh session', 'session resumed inside a Markov level (status request can see the placeholder item)'],
-            'ruleset': 'D1(2 groups) / M (2 levels of 3 strings) / D2: 5 pre-terminals, 10 guesses'}
+            'ruleset': 'D1(2 groups) / M (2 levels of 3 strings) / D2: 5 pre-terminals, 10 guesses', **ST.bounds(tier)}
 
 
 def boundaries(events, n_prefix=0):
@@ -117,6 +119,8 @@ def run_subprocess(acc):
 
 
 def run_shard(shard, tier, acc):
+    if shard[0] == 'status':
+        return ST.run(shard, tier, acc)
     scen, si = shard
     if scen == 'subprocess':
         return run_subprocess(acc)
@@ -242,6 +246,8 @@ def run_shard(shard, tier, acc):
 
 
 def replay(case):
+    if case.get('layer') == 'status':
+        return ST.replay(case)
     if case['scenario'] == 'subprocess':
         from ..runner import Acc
         acc = Acc()
